@@ -11,6 +11,7 @@ import Nstd.Variant.Ieee
         | aapp <src> | arem i | mput <khex> <src> | mrem <khex> | sapp <hex>
     get v w <path>         var[v] = <const walk in var[w]>
     swap v w
+    selfapp l|a|m|n|e      probe of the finding "self-append" on a local Variant (prints container sizes along `.back()`)
     <path> = `.` | steps joined by `/`:  l<i> (list item)  a<i> (array item)  m<khex> (map value)
     <src>  = v<k> | <lit>
     <lit>  = n | b0 | b1 | d<16 hex digits> | i<int> | u<nat> | l<int> | q<nat> | s<hex>
@@ -162,6 +163,13 @@ def obs (s : State) : String :=
 def stepLine (s : State) (ws : List String) : State × String :=
   match ws with
   | ["reset"] => (init, obs init)
+  | ["selfapp", k] =>
+    -- finding "self-append": outside the precondition `mutOk` of the model; the line answers with
+    -- what the specification (value semantics: the appended copy is the old value) prescribes
+    (s, if k == "l" || k == "a" || k == "m" then s!"selfapp {k} 1 0 0 0 0"
+        else if k == "n" then "selfapp n 1 1 1 0 0"
+        else if k == "e" then "selfapp e 1 1 0 0 0"
+        else "bad-op")
   | _ =>
     match parseOp ws with
     | none => (s, "bad-op")
